@@ -513,7 +513,29 @@ class AbstractGroup:
             def parse(cls, binary):
                 if len(binary) == 32:
                     return cls.parse_xonly(binary)
-                raise core.Unsupported("SEC parsing in the abstract group")
+                if len(binary) == 33:
+                    return cls.parse_sec(binary)
+                raise core.Unsupported("uncompressed SEC parsing in the abstract group")
+
+            @classmethod
+            def parse_sec(cls, sec_bin):
+                """compressed SEC of a known point: prefix 02/03 selects the representative with that parity"""
+                if len(sec_bin) != 33:
+                    raise core.Unsupported("uncompressed SEC parsing in the abstract group")
+                pre = concretize(sec_bin[0])
+                if pre not in (2, 3):
+                    raise ValueError("Unknown SEC prefix")
+                n = core.int_from_bytes(sec_bin[1:], "big")
+                if isinstance(n, int):
+                    raise core.Unsupported("concrete SEC key in the abstract group")
+                for f, xn, pn in grp.xs:
+                    if n.n is xn:
+                        d = F.canon(f)
+                        odd = branch(pn)
+                        if odd != (pre == 3):
+                            d = F.reduce(-lift_si(d))
+                        return AbstractPoint(d=d)
+                raise core.Unsupported("SEC bytes that are not the encoding of a known abstract point")
 
         G_holder = [None]
         G = AbstractPoint(d=1)
